@@ -311,12 +311,14 @@ Theorem C01_ok_n_unfold : forall ob m lp q r rho', ok_n ob m lp q r rho' <->
   exists n m', steps ob n m = Some m' /\ frame2 m m' /\ minv m' /\ ip m' = (lp, q) /\
     vrep (acc m') r (hp m') (st m') /\ genv_rel rho' m'.
 Proof. intros; reflexivity. Qed.
+Print Assumptions C01_ok_n_unfold.
 Theorem C01_ok_t_unfold : forall ob m r rho', ok_t ob m r rho' <->
   exists n m' k e i b, steps ob n m = Some m' /\ frame_at m k e i b /\ rext m m' /\ minv m' /\
     vrep (acc m') r (hp m') (st m') /\ genv_rel rho' m' /\
     sp m' = bp m - k /\ ep m' = e /\ ip m' = i /\ bp m' = b /\ out_log m' = out_log m /\
     (forall j, j <= bp m - k -> sget m' j = sget m j).
 Proof. intros; reflexivity. Qed.
+Print Assumptions C01_ok_t_unfold.
 
 (* Vm::eval on an expression of the extended fragment *)
 Theorem C01_eval_fragment2 :
